@@ -228,8 +228,8 @@ def shard_accessor(spec, R):
 
 def plan(tier, seed):
     q = tier == "quick"
-    specs = [{"kind": "kernel", "sub": i, "cases": 500 if q else 5000, "max_days": 4000, "exact_every": 12 if q else 6, "budget_s": 100 if q else 1500} for i in range(12 if q else 24)]
-    specs += [{"kind": "accessor", "sub": i, "cases": 60 if q else 500, "budget_s": 100 if q else 1500} for i in range(4 if q else 8)]
+    specs = [{"kind": "kernel", "sub": i, "cases": 500 if q else 15000, "max_days": 4000, "exact_every": 12 if q else 6, "budget_s": 100 if q else 600} for i in range(12 if q else 32)]
+    specs += [{"kind": "accessor", "sub": i, "cases": 60 if q else 1500, "budget_s": 100 if q else 600} for i in range(4 if q else 8)]
     return specs
 
 
